@@ -30,20 +30,20 @@ pub const PROPS: [&str; 19] = [
 pub fn spec(prop: &str) -> Option<Spec> {
     let s = |prop, engine, quick, thorough, rule| Spec { prop, engine, level: "exploration", quick, thorough, crash_enumeration: false, rule };
     Some(match prop {
-        "C01" => s("C01", Engine::Core, (120_000, 40_000), (4_000_000, 1_000_000), "seeded core histories, equality cutoffs only; non-trivial = a node was unobserved during a write to its cone and observed again, or a bind switched its right-hand side; distinct = distinct sequence of recomputed node kinds over the run"),
-        "C02" => s("C02", Engine::Core, (120_000, 40_000), (4_000_000, 1_000_000), "seeded core histories with sibling-biased binds, link-order variation and in-bucket tie-break; non-trivial = a bind switched in a round where nodes of at least two kinds recomputed; distinct = distinct recompute-order sequence"),
-        "C03" => s("C03", Engine::Core, (120_000, 40_000), (4_000_000, 1_000_000), "seeded core histories with exported bind-built nodes; non-trivial = a bind re-ran while nodes of its previous run existed (they were invalidated); distinct = distinct recompute-order sequence"),
-        "C04" => s("C04", Engine::Core, (120_000, 60_000), (4_000_000, 2_000_000), "seeded well-formed core histories in both build flavours; non-trivial = run reached adjust-heights, a dropped bind-built node, duplicate parents removal, or handler-phase re-entrancy (probe counters); distinct = distinct recompute-order sequence"),
-        "C05" => s("C05", Engine::Core, (120_000, 40_000), (4_000_000, 1_000_000), "seeded core histories heavy on observer creation/drop/disallow; non-trivial = a stabilise ran with a pending write whose cone had no live observer, or a node ran that was needed only at the start of the round; distinct = distinct recompute-order sequence"),
-        "C06" => s("C06", Engine::Core, (120_000, 40_000), (4_000_000, 1_000_000), "seeded core histories with all cutoff kinds on all node kinds; non-trivial = some cutoff suppressed and some cutoff passed a result in the same run; distinct = distinct recompute-order sequence"),
-        "C07" => s("C07", Engine::Core, (120_000, 40_000), (4_000_000, 1_000_000), "seeded core histories with reads after every action and from inside callbacks; non-trivial = reads were issued from inside node functions or handlers and between a write and its stabilise; distinct = distinct recompute-order sequence"),
-        "C08" => s("C08", Engine::Core, (120_000, 40_000), (4_000_000, 1_000_000), "seeded core histories heavy on the five write operations from top level, node functions and handlers; non-trivial = a deferred or handler-phase write happened; distinct = distinct recompute-order sequence"),
-        "C09" => s("C09", Engine::Core, (120_000, 40_000), (4_000_000, 1_000_000), "seeded core histories heavy on subscriptions; non-trivial = at least two notifications were delivered and an observer or subscription was added to a node that already had a subscriber; distinct = distinct recompute-order sequence"),
-        "C10" => s("C10", Engine::Core, (120_000, 40_000), (4_000_000, 1_000_000), "seeded observer lifecycle histories; non-trivial = at least three lifecycle results (subscribe/unsubscribe outcomes) were judged; distinct = distinct recompute-order sequence"),
-        "C11" => s("C11", Engine::Core, (100_000, 40_000), (3_000_000, 1_000_000), "seeded core histories, engine audit after every action; non-trivial = at least ten audits ran over a graph in which a bind switched or a node became unnecessary; distinct = distinct recompute-order sequence"),
-        "C12" => s("C12", Engine::Core, (100_000, 40_000), (3_000_000, 1_000_000), "seeded core histories ending in a random-permutation teardown; non-trivial = teardown interleaved with stabilises over a graph with binds or vars dropped mid-run; distinct = distinct recompute-order sequence"),
-        "C13" => Spec { prop: "C13", engine: Engine::Core, level: "fault_enumeration", quick: (1_500, 500), thorough: (60_000, 20_000), crash_enumeration: true, rule: "seeded core histories; for each, a panic is injected at every individual user-function invocation reached inside stabilise (exhaustive per history); evaluations counts injected runs; non-trivial = crash point with at least one node already recomputed in that round; distinct = distinct (history, crash point)" },
-        "C20" => s("C20", Engine::Core, (100_000, 40_000), (3_000_000, 1_000_000), "seeded core histories with memoised constructors called from top level and from bind closures; non-trivial = a memoised call hit a live node and another call re-created a dropped one; distinct = distinct recompute-order sequence"),
+        "C01" => s("C01", Engine::Core, (600_000, 200_000), (30_000_000, 10_000_000), "seeded core histories, equality cutoffs only; non-trivial = a node was unobserved during a write to its cone and observed again, or a bind switched its right-hand side; distinct = distinct sequence of recomputed node kinds over the run"),
+        "C02" => s("C02", Engine::Core, (600_000, 200_000), (30_000_000, 10_000_000), "seeded core histories with sibling-biased binds, link-order variation and in-bucket tie-break; non-trivial = a bind switched in a round where nodes of at least two kinds recomputed; distinct = distinct recompute-order sequence"),
+        "C03" => s("C03", Engine::Core, (600_000, 200_000), (30_000_000, 10_000_000), "seeded core histories with exported bind-built nodes; non-trivial = a bind re-ran while nodes of its previous run existed (they were invalidated); distinct = distinct recompute-order sequence"),
+        "C04" => s("C04", Engine::Core, (600_000, 300_000), (30_000_000, 15_000_000), "seeded well-formed core histories in both build flavours; non-trivial = run reached adjust-heights, a dropped bind-built node, duplicate parents removal, or handler-phase re-entrancy (probe counters); distinct = distinct recompute-order sequence"),
+        "C05" => s("C05", Engine::Core, (600_000, 200_000), (30_000_000, 10_000_000), "seeded core histories heavy on observer creation/drop/disallow; non-trivial = a stabilise ran with a pending write whose cone had no live observer, or a node ran that was needed only at the start of the round; distinct = distinct recompute-order sequence"),
+        "C06" => s("C06", Engine::Core, (600_000, 200_000), (30_000_000, 10_000_000), "seeded core histories with all cutoff kinds on all node kinds; non-trivial = some cutoff suppressed and some cutoff passed a result in the same run; distinct = distinct recompute-order sequence"),
+        "C07" => s("C07", Engine::Core, (600_000, 200_000), (30_000_000, 10_000_000), "seeded core histories with reads after every action and from inside callbacks; non-trivial = reads were issued from inside node functions or handlers and between a write and its stabilise; distinct = distinct recompute-order sequence"),
+        "C08" => s("C08", Engine::Core, (600_000, 200_000), (30_000_000, 10_000_000), "seeded core histories heavy on the five write operations from top level, node functions and handlers; non-trivial = a deferred or handler-phase write happened; distinct = distinct recompute-order sequence"),
+        "C09" => s("C09", Engine::Core, (600_000, 200_000), (30_000_000, 10_000_000), "seeded core histories heavy on subscriptions; non-trivial = at least two notifications were delivered and an observer or subscription was added to a node that already had a subscriber; distinct = distinct recompute-order sequence"),
+        "C10" => s("C10", Engine::Core, (600_000, 200_000), (30_000_000, 10_000_000), "seeded observer lifecycle histories; non-trivial = at least three lifecycle results (subscribe/unsubscribe outcomes) were judged; distinct = distinct recompute-order sequence"),
+        "C11" => s("C11", Engine::Core, (600_000, 200_000), (30_000_000, 10_000_000), "seeded core histories, engine audit after every action; non-trivial = at least ten audits ran over a graph in which a bind switched or a node became unnecessary; distinct = distinct recompute-order sequence"),
+        "C12" => s("C12", Engine::Core, (600_000, 200_000), (30_000_000, 10_000_000), "seeded core histories ending in a random-permutation teardown; non-trivial = teardown interleaved with stabilises over a graph with binds or vars dropped mid-run; distinct = distinct recompute-order sequence"),
+        "C13" => Spec { prop: "C13", engine: Engine::Core, level: "fault_enumeration", quick: (60_000, 20_000), thorough: (3_000_000, 1_000_000), crash_enumeration: true, rule: "seeded core histories; for each, a panic is injected at every individual user-function invocation reached inside stabilise (exhaustive per history); evaluations counts injected runs; non-trivial = crash point with at least one node already recomputed in that round; distinct = distinct (history, crash point)" },
+        "C20" => s("C20", Engine::Core, (600_000, 200_000), (30_000_000, 10_000_000), "seeded core histories with memoised constructors called from top level and from bind closures; non-trivial = a memoised call hit a live node and another call re-created a dropped one; distinct = distinct recompute-order sequence"),
         _ => return None,
     })
 }
@@ -140,7 +140,9 @@ pub fn profile(prop: &str) -> Profile {
             p.w_memo = 2;
         }
         "C13" => {
-            p.actions = (6, 28);
+            p.actions = (10, 40);
+            p.w_observe = 14;
+            p.w_stab = 22;
             p.w_sub = 8;
             p.w_cutoff = 5;
             p.hfx_pct = 30;
